@@ -722,11 +722,16 @@ hwloc_backend_synthetic_init(struct hwloc_synthetic_backend_data_s *data,
     count++;
   }
 
+  /* the last level has no children, this also terminates level walks
+   * in hwloc_synthetic_process_indexes() and hwloc_synthetic_free_levels()
+   */
+  data->level[count-1].arity = 0;
+
   if (data->level[count-1].attr.type != HWLOC_OBJ_TYPE_NONE && data->level[count-1].attr.type != HWLOC_OBJ_PU) {
     if (verbose)
       fprintf(stderr, "Synthetic string cannot use non-PU type for last level\n");
     errno = EINVAL;
-    return -1;
+    goto error;
   }
   data->level[count-1].attr.type = HWLOC_OBJ_PU;
 
@@ -745,42 +750,42 @@ hwloc_backend_synthetic_init(struct hwloc_synthetic_backend_data_s *data,
     if (verbose)
       fprintf(stderr, "Synthetic string missing ending number of PUs\n");
     errno = EINVAL;
-    return -1;
+    goto error;
   } else if (type_count[HWLOC_OBJ_PU] > 1) {
     if (verbose)
       fprintf(stderr, "Synthetic string cannot have several PU levels\n");
     errno = EINVAL;
-    return -1;
+    goto error;
   }
   if (type_count[HWLOC_OBJ_PACKAGE] > 1) {
     if (verbose)
       fprintf(stderr, "Synthetic string cannot have several package levels\n");
     errno = EINVAL;
-    return -1;
+    goto error;
   }
   if (type_count[HWLOC_OBJ_DIE] > 1) {
     if (verbose)
       fprintf(stderr, "Synthetic string cannot have several die levels\n");
     errno = EINVAL;
-    return -1;
+    goto error;
   }
   if (type_count[HWLOC_OBJ_NUMANODE] > 1) {
     if (verbose)
       fprintf(stderr, "Synthetic string cannot have several NUMA node levels\n");
     errno = EINVAL;
-    return -1;
+    goto error;
   }
   if (type_count[HWLOC_OBJ_NUMANODE] && data->numa_attached_nr) {
     if (verbose)
       fprintf(stderr,"Synthetic string cannot have NUMA nodes both as a level and attached\n");
     errno = EINVAL;
-    return -1;
+    goto error;
   }
   if (type_count[HWLOC_OBJ_CORE] > 1) {
     if (verbose)
       fprintf(stderr, "Synthetic string cannot have several core levels\n");
     errno = EINVAL;
-    return -1;
+    goto error;
   }
 
   /* deal with missing intermediate levels */
@@ -793,7 +798,7 @@ hwloc_backend_synthetic_init(struct hwloc_synthetic_backend_data_s *data,
     if (verbose)
       fprintf(stderr, "Synthetic string cannot mix unspecified and specified types for levels\n");
     errno = EINVAL;
-    return -1;
+    goto error;
   }
   if (unset) {
     /* we want in priority: numa, package, core, up to 3 caches, groups */
@@ -891,9 +896,6 @@ hwloc_backend_synthetic_init(struct hwloc_synthetic_backend_data_s *data,
     data->level[0].arity = 1;
     count++;
   }
-
-  /* the last level has no children, this also terminates level lookups in hwloc_synthetic_process_indexes() */
-  data->level[count-1].arity = 0;
 
   /* set default attributes that depend on the depth/hierarchy of levels */
   for (i=0; i<count; i++) {
